@@ -99,79 +99,34 @@ def nontrivial(case, obs):
     return any(l.startswith("(ok (") and l != "(ok ())" for l in obs)
 
 
-# finding F25 (text glued to a closing collector parenthesis, '(a)b': NotImplementedError) is repaired in the
-# parser; its witnesses stay in the corpus below
-def bracket_paren_tangle(path):
-    """the text opens a parenthesis directly inside an open bracket that is no keyword call ('[(a)]',
-    '[a=(x)]'), or closes a bracket while a parenthesis is the innermost open mark ('(]'): plain scan of the
-    unescaped, unquoted marks"""
-    stack, quote, esc, word = [], None, False, ""
-    for ch in path:
-        if esc:
-            esc = False
-            continue
-        if ch == "\\":
-            esc = True
-        elif quote:
-            if ch == quote:
-                quote = None
-        elif ch in "'\"":
-            quote = ch
-        elif ch == "[":
-            stack.append(ch)
-            word = ""
-            continue
-        elif ch == "(":
-            if stack and stack[-1] == "[" and not any(word.strip().lstrip("!").strip() == k[:-1] for k in KW_NAMES):
-                return True
-            stack.append(ch)
-        elif ch == "]":
-            if stack and stack[-1] == "(":
-                return True
-            if stack:
-                stack.pop()
-        elif ch == ")":
-            if stack and stack[-1] == "(":
-                stack.pop()
-        word = word + ch if ch not in "[]()" else ""
-    return False
+# findings F25 (text glued to a closing collector parenthesis, '(a)b') and F30 (brackets and parentheses closing
+# each other, a collector opened inside a [...] segment: '[(a)]', '(][max(())]', '[max()\\])') ended in
+# NotImplementedError; both are repaired in the parser.  Their witnesses stay in the corpus below and a stream of
+# tangled texts is part of every run (tangle_cases).
+FINDING_PREDS = {}
+
+TANGLE_TOKENS = ["(", ")", "[", "]", "'", "\\", "a", "b", "=", "max", "&", ".", "~", "/", "+", "!", "0", ":", "*"]
 
 
-def untyped_segment(path, depth=0):
-    """the path (or a collector expression / search attribute inside it) parses to a segment that has no type, or
-    is COLLECTOR-typed without collector terms"""
-    E = ec._ENV
-    from yamlpath.enums import PathSegmentTypes
-    if depth > 6:
-        return False
-    try:
-        segs = list(E["YAMLPath"](path)._parse_path(True))
-    except Exception:  # noqa
-        return False
-    for (t, a) in segs:
-        if t is None or (t is PathSegmentTypes.COLLECTOR and not isinstance(a, E["CollectorTerms"])):
-            return True
-        if isinstance(a, E["CollectorTerms"]) and untyped_segment(a.expression, depth + 1):
-            return True
-        if isinstance(a, E["SearchTerms"]) and untyped_segment(a.attribute, depth + 1):
-            return True
-    return False
-
-
-def f30_bracket_collector(case, obs):
-    """every crash of the case is the NotImplementedError of a segment without a usable type, in a path whose
-    parentheses and brackets are tangled ('[(a)]', '(][max(())]'); text merely glued to a collector ('(a)b',
-    the repaired F25) has no bracket and is NOT covered"""
-    vs = list(violations(case, obs))
-    return bool(vs) and all(line == "(raise (crash NotImplemented))" and bracket_paren_tangle(path)
-                            and untyped_segment(path) for path, _mode, line in vs)
-
-
-FINDING_PREDS = {"bracket_collector_tangle": f30_bracket_collector}
+def tangle_cases(tier, seed):
+    """malformed texts around brackets, parentheses, quotes and escapes: every token string of length <= 3 over
+    the eight marks, then seeded random token strings of length 3-10"""
+    import itertools
+    import random
+    rng = random.Random(seed * 31 + 15)
+    marks = ["(", ")", "[", "]", "'", "\\", "a", "max"]
+    paths = ["".join(t) for n in (1, 2, 3) for t in itertools.product(marks, repeat=n)]
+    for _ in range(6000 if tier == "thorough" else 900):
+        paths.append("".join(rng.choice(TANGLE_TOKENS) for _ in range(rng.randint(3, 10))))
+    paths = sorted(set(paths), key=lambda x: (len(x), x))
+    for i in range(0, len(paths), 30):
+        yield ("{a: 1, b: [2, 3], max: 4}", paths[i:i + 30])
 
 
 def corpus_chunks():
     yield [("{a: 1, b: 2}", ["(a)b", "(a)'b'", "a.(b)c"]), ("{a: 1, b: 2}", ["[(a)]", "(][max(())]", "a[(b)]"]),
+           ("{a: 1, b: 2}", ["[a=(b)]", "[a='(b)']", "[a='(b)'=c]", "[a=[b(c)]=d]", "[a=[(c)]=d]", "[max()\\])", "[max(])",
+                             "[()]", "[[(a)]]", "'a(b)'", "'[(a)]'", "(a[(b)])", "[max('a)]]"]),
            # keyword segments: the repaired defects and the seeded one
            ("x: {a: 1}", ["x[has_child(,)]", "x[!has_child(,)]"]), ("x: [[{a: 1}]]", ["x[0:1][0:1][0][max(a)]"]),
            ("x: {a: 1, b: 2}", ["x.*[parent()]", "x.**[parent()]", "x.*[parent(2)]"]),
@@ -191,6 +146,6 @@ def model_stats(case, outs):
 
 def chunks(tier, seed):
     import itertools
-    return ec.chunks_by_weight(itertools.chain(ec.gen_kw_cases(tier, seed),
+    return ec.chunks_by_weight(itertools.chain(tangle_cases(tier, seed), ec.gen_kw_cases(tier, seed),
                                                ec.gen_scalar_collector_cases(tier, seed),
                                                ec.gen_cases(tier, seed, with_collectors=True)))
